@@ -2,6 +2,7 @@ import HmfVerif.Real.Tactics
 import HmfVerif.Gen.ExprWdm
 import HmfVerif.Gen.ExprWdmAlter
 import HmfVerif.Gen.ExprFlow
+import HmfVerif.Gen.Desc
 import HmfVerif.Spec.Wdm
 import HmfVerif.Proofs.AnalysisWdm
 import HmfVerif.Spec.Wiring
@@ -133,5 +134,14 @@ theorem guards_wdm : Gen.Guards.wdm = Spec.Guards.wdm := by decide
 theorem wdm_derived_inputs :
     Gen.Flow.wiring.lookup "WDM.__init__.Oc0" = some Spec.Wiring.wdmOc0 ∧
     Gen.Flow.wiring.lookup "WDM.__init__.rho_mean" = some Spec.Wiring.wdmRhoMean := by decide
+
+/-- C17 ("only suppresses", "converge to the CDM quantities"): relative to the CDM frameworks the WDM frameworks define **only** the
+    suppressed transfer function and the WDM component (`TransferWDM`: `_unnormalised_lnT`, `wdm`) and the recalibrated `dndm`
+    (`MassFunctionWDM`) — every other quantity (normalisation, σ₈ integral, growth, σ(m), …) is the inherited CDM body, evaluated on the
+    suppressed transfer function. Regenerated from the class bodies on every run. -/
+theorem wdm_frameworks_override_only_transfer_and_dndm :
+    ((Gen.descTransferWDM.bodies.filter (fun b => b.1 == 3)).map (·.2.1)) = [Gen.N._unnormalised_lnT, Gen.N.wdm] ∧
+    ((Gen.descMassFunctionWDM.bodies.filter (fun b => b.1 == 4)).map (·.2.1)) = [Gen.N.dndm] ∧
+    ((Gen.descMassFunctionWDM.bodies.filter (fun b => b.1 == 3)).map (·.2.1)) = [Gen.N._unnormalised_lnT, Gen.N.wdm] := by decide +kernel
 
 end Hmf.C17
